@@ -5,7 +5,7 @@
 (* fraction pair, is enumerated (the call log is part of the state: no VIEW).                  *)
 (* Invariants: Twins, NonInterference (refinement to the solo machine), EffectiveMobility.     *)
 EXTENDS PyDRex
-C08Pars == {[M |-> 125, chi |-> 3, asm |-> a, phiOl |-> p] : a \in {<<0, 1>>, <<1, 0>>}, p \in {7, 3}}
+C08Pars == {[M |-> 125, chi |-> 3, asm |-> a, phiOl |-> p, x |-> <<5, 0>>] : a \in {<<0, 1>>, <<1, 0>>}, p \in {7, 3}}
 cA == [phase |-> 0, fabric |-> 0, regime |-> 4, n |-> 8]
 cC == [phase |-> 1, fabric |-> 5, regime |-> 4, n |-> 8]
 Mk(m, c, s) == [a |-> "Create", m |-> m, c |-> c, seed |-> s, tex |-> "random"]
